@@ -139,7 +139,9 @@ func (cm cronMask) IsRunAt(t time.Time) bool {
 			return false
 		}
 		tm := t.Month()
-		m := t.Add(time.Hour * 7 * 24).Month()
+		// the same weekday of the next week, by the calendar: a week is not
+		// 7*24 hours when daylight-saving time begins or ends in it
+		m := t.AddDate(0, 0, 7).Month()
 		if tm != m {
 			return true
 		}
